@@ -28,6 +28,9 @@ def run(ctx, R, tier):
     speed_units(F, R, rule='B.C05.speed-units')
     from .c17 import once as update_order
     update_order(F, R)
+    # 'a speed change or speed tween takes effect when it is due': the clock does not run on a cached copy of its speed
+    from .c06 import param_cache
+    param_cache(F, R, rule='B.C05.param-cache', fn_filter=lambda q: q.startswith('clock::') or '<clock::' in q, floor=1)
     from ..enginea import run_singular_only
     run_singular_only(R, F, lambda fn: fn.startswith('clock::') or '<clock::' in fn, floor=3)
 
